@@ -6,11 +6,12 @@ from oracle_util import *  # noqa
 from tokutil import *  # noqa
 
 ID = "C19"
-LEAN_MODULE = None
+LEAN_MODULE = "SCoda.Props.C19"
 CLAUSES = [
-    ("the annotation lists have exactly one entry per token and positions count 0,1,2,...", None),
-    ("the absolute time annotated on each note token equals the onset at which detokenise places that note", None),
-    ("pitch and circle-of-fifths annotations equal the note's pitch and the position of its pitch class", None),
+    ("the annotation lists have exactly one entry per token and positions count 0,1,2,...", ["SCoda.C19.lengths", "SCoda.C19.positions", "SCoda.C19.getInfo_eq"]),
+    ("the absolute time annotated on each note token equals the onset at which detokenise places that note",
+     ["SCoda.C19.clocks_agree", "SCoda.C19.note_annotation", "SCoda.C19.detokenise_eq"]),
+    ("pitch and circle-of-fifths annotations equal the note's pitch and the position of its pitch class", ["SCoda.C19.note_annotation"]),
     ("for tokenise-produced streams: in-bar time = onset - bar start, and annotated times never decrease", None),
 ]
 RULE = ("random streams over the vocabulary of sampled configurations (<=60 tokens: bar tokens in partly filled bars, "
